@@ -10,6 +10,19 @@ def reg(n):
     return 'x%d' % n
 
 
+def is_literal(v):
+    """an operand that does not depend on a label: numbers, constants, %hi / %lo / sums of those"""
+    if isinstance(v, int):
+        return True
+    if v[0] == 'const':
+        return True
+    if v[0] in ('hi', 'lo'):
+        return is_literal(v[1])
+    if v[0] in ('add', 'sub'):
+        return is_literal(v[1]) and is_literal(v[2])
+    return False
+
+
 def vtext(v):
     if isinstance(v, int):
         return str(v)
@@ -160,7 +173,7 @@ class Prog:
                 parts.append(str(v))
             else:
                 parts.append(self.v(v))
-        literal = all(isinstance(v, int) for v in ops)
+        literal = all(is_literal(v) for v in ops)
         fmt = rv32.TABLE[m][0]
         single = len(ops) == 3 and (isinstance(ops[2], int) or ops[2][0] in ('label', 'const'))      # one-token offsets only
         if text is None and self.style is not None and single and m in ('jalr', 'lb', 'lh', 'lw', 'lbu', 'lhu', 'sb', 'sh', 'sw') \
@@ -203,7 +216,7 @@ class Prog:
         return self.add(self.j(name, [target]), **rec)
 
     def li(self, rd, value):
-        return self.add(self.j('li', [self.r(rd), self.v(value)]), kind='li', rd=rd, value=value)
+        return self.add(self.j('li', [self.r(rd), self.v(value)]), kind='li', rd=rd, value=value, literal=is_literal(value))
 
     def pseudo(self, name, *regs):
         n, f = PSEUDO_SIMPLE[name]
@@ -372,6 +385,17 @@ ALPHABET_EXTRA = [
     ('swsp', lambda p, L: p.insn('sw', 2, 8, 12)),
     ('lui1', lambda p, L: p.insn('lui', 9, 1)),
     ('str7', lambda p, L: p.string('seven77')),
+    ('lg1', lambda p, L: p.data('longs', 7)),
+    ('lg3', lambda p, L: p.data('longs', 1, -2, 3)),
+    ('ll1', lambda p, L: p.data('longlongs', 5)),
+    ('in2', lambda p, L: p.data('ints', 3, 4)),
+    ('db1', lambda p, L: p.data('db', 200)),
+    ('dh1', lambda p, L: p.data('dh', 513)),
+    ('ddlit', lambda p, L: p.data('dd', 1 << 40)),
+    ('packQ', lambda p, L: p.pack('<Q', 77)),
+    ('packH', lambda p, L: p.pack('>H', 0x1234)),
+    ('packL', lambda p, L: p.pack('<L', 9)),
+    ('packb', lambda p, L: p.pack('<b', -3)),
 ]
 
 
@@ -493,8 +517,51 @@ def value_programs():
             yield p
 
 
+def hilo_programs():
+    """%hi / %lo of literals, constants and %position expressions over every carry class, each value in its unsigned and
+    (from 2**31 up) its negative spelling, consumed by lui/auipc + addi/lw/sw/jalr (C07)"""
+    uppers = [0, 1, 2, 0x7fffe, 0x7ffff, 0x80000, 0x80001, 0xffffe, 0xfffff]
+    lows = [0, 1, 0x7fe, 0x7ff, 0x800, 0x801, 0xffe, 0xfff]
+    vals = []
+    for u in uppers:
+        for lo in lows:
+            v = (u << 12) | lo
+            vals.append(v)
+            if v >= 1 << 31:
+                vals.append(v - (1 << 32))
+    vals += [-1, -2048, -2049, -(1 << 31), -(1 << 31) + 1, (1 << 32) - 1, (1 << 31) - 1]
+    for n, v in enumerate(sorted(set(vals))):
+        p = Prog('hilo:%d' % v)
+        p.const('K', v)
+        p.label('anchor')
+        p.insn('lui', 5, ('hi', v))
+        p.insn('addi', 5, 5, ('lo', v))
+        p.insn('lui', 8, ('hi', ('const', 'K', v)))
+        p.insn('lw', 9, 8, ('lo', ('const', 'K', v)))
+        p.insn('sw', 8, 9, ('lo', ('const', 'K', v)))
+        if v % 2 == 0:
+            p.insn('jalr', 1, 8, ('lo', v))
+        if -(1 << 31) <= v - 16 and v + 16 < (1 << 32):
+            p.insn('lui', 6, ('hi', ('position', 'anchor', v)))
+            p.insn('addi', 6, 6, ('lo', ('position', 'anchor', v)))
+        p.li(7, v)
+        yield p
+
+
 def compress_edge_programs():
     """literal operands on both sides of every RVC operand-set boundary (C20 eligibility, C04 meaning)"""
+    # operands written as %hi / %lo of a literal or of a constant, and li (expanded to lui %hi + addi %lo): still literal operands
+    p = Prog('cedge:hi-lo-literal')
+    p.const('KV', 0x5000)
+    for rd in (8, 9, 1, 2, 0):
+        for v in (0x5000, 0x1f000, 0x20000, 0x800, 0x7ff, 0xfffe0000, 0xfffdf800, 0x1f7ff, 0x1f800, -4096, 0x12345):
+            p.insn('lui', rd, ('hi', v))
+            p.insn('addi', rd, rd, ('lo', v))
+            if rd:
+                p.li(rd, v)
+        p.insn('lui', rd, ('hi', ('const', 'KV', 0x5000)))
+        p.insn('addi', rd, rd, ('lo', ('const', 'KV', 0x5000)))
+    yield p
     def around(vals):
         s = set()
         for v in vals:
